@@ -98,6 +98,11 @@ def run_case(cfg: str, case: dict[str, Any], seed: int, tmp: str, controlled: bo
         caslog: list[Any] = []
         name = "q%d" % seed
         sampler = optuna.samplers.RandomSampler(seed=1)
+        if seed % 3 == 0:
+            # another study lives in the same storage first: trial ids of the queue's study differ from its trial numbers
+            decoy = optuna.create_study(storage=storages[0], study_name=name + "_decoy")
+            for _ in range(1 + seed % 4):
+                decoy.tell(decoy.ask(), 0.0)
         studies = [optuna.create_study(storage=Recorder(storages[0], caslog), study_name=name, sampler=sampler)]
         for st in storages[1:]:
             studies.append(optuna.load_study(storage=Recorder(st, caslog), study_name=name, sampler=optuna.samplers.RandomSampler(seed=2)))
